@@ -17,6 +17,8 @@ GenNext ==
     \/ \E n \in Node, c \in Item : (Retry(n, c) \/ RetryDrop(n, c)) /\ H([op |-> "retry", n |-> n, c |-> c])
     \/ \E b \in Bad, t \in Node, i \in Item, v \in Node : \E k \in 1..6 :
           Forge(b, t, i, ForgeMenuSeq(b, i, v)[k]) /\ H([op |-> "forge", b |-> b, t |-> t, i |-> i, v |-> v, menu |-> k])
+GenNextP == GenNext \/ (\E b \in Bad, t \in Node, i \in Item : Poison(b, t, i) /\ H([op |-> "poison", b |-> b, t |-> t, i |-> i]))
+GenSpecP == GenInit /\ [][GenNextP]_<<vars, hist>>
 GenSpec == GenInit /\ [][GenNext]_<<vars, hist>>
 
 \* a duplicate is delivered like any message: mark it so that the driver redelivers instead of looking in flight
